@@ -36,7 +36,15 @@ type Worker struct {
 	Deco *gen.DecoSpec `json:"deco,omitempty"`
 	// List: the goroutine first takes the style listing and the registered decoration names (part of its results)
 	List bool `json:"list,omitempty"`
+	// Tall > 0: that many plain rows are added on top, and a render-time cell callback with plain (unsynchronised)
+	// state of its own counts the cells it is handed: it belongs to this goroutine's table and to nobody else
+	Tall int `json:"tall,omitempty"`
 }
+
+// counting is a callback with state of its own.
+type counting struct{ n *int }
+
+func (c counting) UpdateProperties(tabular.PropertyOwner) error { *c.n++; return nil }
 
 // protoTag is the stateless callback every copy of the prototype cell carries.
 type protoTag struct{ n int }
@@ -128,6 +136,14 @@ func run(wk Worker, idx int, proto *tabular.Cell, mid func(), yield bool) []resu
 		if err := t.RegisterPropertyCallback(&cells[0], tabular.CB_AT_RENDER, tabular.CB_ON_ITSELF, aligner{t, how}); err != nil {
 			panic(err)
 		}
+	}
+	if wk.Tall > 0 {
+		for i := 0; i < wk.Tall; i++ {
+			t.AddRowItems(fmt.Sprintf("row %d", i), "x")
+		}
+		n := 0
+		t.RegisterPropertyCallback(t, tabular.CB_AT_RENDER, tabular.CB_ON_CELL, counting{&n})
+		t.RegisterPropertyCallback(t.Column(1), tabular.CB_AT_RENDER_PRECELL, tabular.CB_ON_CELL, counting{&n})
 	}
 	if mid != nil {
 		mid()
